@@ -6,6 +6,7 @@ package main
 // with the Go dynamic types of the arguments they received.
 
 import (
+	"encoding/json"
 	"context"
 	"errors"
 	"fmt"
@@ -21,6 +22,9 @@ import (
 type ctxKey int
 
 const featKey ctxKey = 1
+
+// operations costing more than this are refused by the Execute hook (configurations with a hook)
+const costLimit = 40
 
 // recorder is shared by all transports of one API; the harness drives one request at a time.
 type recorder struct {
@@ -276,6 +280,23 @@ func newAPI(c config, rec *recorder) *apifu.API {
 			return graphql.NewFeatureSet()
 		}
 	}
+	// the principal of a socket connection arrives in the connection_init payload ({"plan":"beta"})
+	// and is installed into the connection's context by this hook; Config.Features reads it from
+	// there (over HTTP the harness's middleware installs it from the X-Plan header)
+	cfg.HandleGraphQLWSInit = func(ctx context.Context, parameters json.RawMessage) (context.Context, error) {
+		var p struct {
+			Plan string `json:"plan"`
+		}
+		if len(parameters) > 0 {
+			if err := json.Unmarshal(parameters, &p); err != nil {
+				return nil, err
+			}
+		}
+		if p.Plan == "deny" {
+			return nil, errors.New("unknown principal")
+		}
+		return context.WithValue(ctx, featKey, p.Plan == "beta"), nil
+	}
 	if c.Cost {
 		cfg.DefaultFieldCost = graphql.FieldCost{Resolver: 1}
 	}
@@ -284,6 +305,10 @@ func newAPI(c config, rec *recorder) *apifu.API {
 			if r.Query != sentinelQuery {
 				rec.hook(fmt.Sprintf("q=%q n=%q v=%s f=[%s] cost=%d doc=%v", r.Query, r.OperationName,
 					dumpGo(map[string]interface{}(r.VariableValues)), featuresDump(r.Features), info.Cost, r.Document != nil))
+			}
+			if info.Cost > costLimit {
+				// a cost limit, the way an application enforces one through Config.Execute
+				return &graphql.Response{Errors: []*graphql.Error{{Message: "cost limit exceeded"}}}
 			}
 			return graphql.Execute(r)
 		}
